@@ -495,3 +495,12 @@ func (m *Model) Parse(allowTrailing bool) (ok bool, node *Node, end int) {
 	}
 	return true, node, r.Pos
 }
+
+// ParseProd parses the whole input as production pi (the grammar of a parser derived for an inner production).
+func (m *Model) ParseProd(pi int) (ok bool, node *Node, end int) {
+	r, n := m.Prod(pi, 0)
+	if r.K != Match || !m.Raw[m.nextNE(r.Pos)].EOF {
+		return false, nil, r.Pos
+	}
+	return true, n, r.Pos
+}
